@@ -195,7 +195,7 @@ Qed.
 
 (* every input with a special non-file scheme outside Known_C01 (the exact classes) is in the class *)
 Theorem special_class_covers_known input sch R :
-  spec_scheme (spec_clean input) = Some (sch, R) -> is_special_scheme sch = true -> known_c01 None input = 0 ->
+  spec_scheme (spec_clean input) = Some (sch, R) -> is_special_scheme sch = true -> known_c01_v1 None input = 0 ->
   in_class_special input = true.
 Proof.
   intros Hs Hsp Hk. destruct (known_exact_nobase input sch R Hs Hk) as [Hf Hd]. rewrite Hsp in Hd.
@@ -205,7 +205,7 @@ Qed.
 (* C01_statement for inputs with a special scheme and no base: outside Known_C01 the two sides agree *)
 Theorem statement_special_nobase dbg hp hpo hd shp shs input sch R :
   usv_list input -> spec_scheme (spec_clean input) = Some (sch, R) -> is_special_scheme sch = true ->
-  known_c01 None input = 0 ->
+  known_c01_v1 None input = 0 ->
   host_agree_sp hp hd shp shs (class_host_text_s input) ->
   agree_rel_strict dbg shs (parse_url dbg hp hpo hd None None input) (spec_basic_url_parse shp input None).
 Proof.
